@@ -295,7 +295,9 @@ def main_(seed, nscen):
                     elif mode == "wrong-secret":
                         if name not in ("write", "abort"):
                             continue
-                        kw["upload_secret"] = bytes([kw["upload_secret"][0] ^ 0xff]) * 32
+                        others = [u_["secret"] for k_, u_ in uploads.items() if k_ != key and u_["secret"] != u["secret"]]
+                        # either a made-up secret or the (valid) secret of ANOTHER upload in progress
+                        kw["upload_secret"] = rng.choice(others) if others and rng.random() < 0.6 else bytes([kw["upload_secret"][0] ^ 0xff]) * 32
                     else:
                         secrets = [k_ for k_ in kw if k_.endswith("_secret")]
                         if not secrets:
@@ -341,7 +343,7 @@ def main_(seed, nscen):
 BOUND = ("HTTP-versus-direct twin-server histories (real StorageServer x2, real HTTPServer resource, real StorageClient* over treq's in-memory agent, thread pool disabled): 15..40 operations over 3 immutable and 2 mutable "
          "storage indexes -- create, chunked writes (in order, overlapping, conflicting, overrunning), abort, 31-minute timeout, range reads incl. past the end and of missing shares, list, add-lease, "
          "read-test-write with matching/failing test vectors, truncation, deletion and wrong write enabler, mutable reads -- interleaved with requests that must be refused: every endpoint with a wrong swissnum, "
-         "write/abort with another upload secret, requests with one secret header missing")
+         "write/abort with a made-up secret or with the secret of another upload in progress, requests with one secret header missing")
 KINDS = {
     "C31": (("differs",), "the-HTTP-path-and-the-direct-path-give-the-same-results-and-leave-the-same-server-state"),
     "C30": (("not_refused", "refused_but_changed_state"), "requests-without-the-right-swissnum-or-secret-are-refused-and-change-nothing"),
